@@ -133,6 +133,7 @@ type injector struct {
 	sets   []*injSet
 	fields []*injField
 	dirs   []*injDirSite
+	keys   map[string]int // response key → number of field selections using it, document-wide
 	n      int
 }
 
@@ -173,7 +174,7 @@ func (c *injector) fieldDef(parent, name string) *model.FieldDef {
 }
 
 func (c *injector) index() {
-	c.sets, c.fields, c.dirs = nil, nil, nil
+	c.sets, c.fields, c.dirs, c.keys = nil, nil, nil, map[string]int{}
 	for _, def := range c.d.Defs {
 		if def.Kind == "fragment" {
 			c.dirs = append(c.dirs, &injDirSite{&def.Dirs, "FRAGMENT_DEFINITION", def})
@@ -198,6 +199,7 @@ func (c *injector) walk(sel *[]*model.Sel, parent string, def *model.Def) {
 		case "field":
 			fd := c.fieldDef(parent, x.Name)
 			c.fields = append(c.fields, &injField{x, fd, parent, def})
+			c.keys[x.Key()]++
 			c.dirs = append(c.dirs, &injDirSite{&x.Dirs, "FIELD", def})
 			if len(x.Sel) > 0 {
 				sub := ""
@@ -257,6 +259,15 @@ func (c *injector) insert(set *injSet, xs ...*model.Sel) {
 		l[i] = x
 		*set.sel = l
 	}
+}
+
+// aliasIfTaken returns "" when no field selection of the document uses name as its response
+// key, else a fresh alias.
+func (c *injector) aliasIfTaken(name string) string {
+	if c.keys[name] == 0 {
+		return ""
+	}
+	return c.fresh("zf")
 }
 
 func typenameSel() *model.Sel { return &model.Sel{K: "field", Name: "__typename"} }
@@ -482,12 +493,13 @@ func (c *injector) newDir(v *model.Val) (*model.Dir, *model.Def) {
 	return d, site.def
 }
 
-// existingCondDirs lists the @skip/@include applications already in the document.
+// existingCondDirs lists the @skip/@include applications with a literal condition already in
+// the document.
 func (c *injector) existingCondDirs() []*model.Dir {
 	var out []*model.Dir
 	for _, s := range c.dirs {
 		for _, d := range *s.dirs {
-			if (d.Name == "skip" || d.Name == "include") && d.Arg("if") != nil {
+			if a := d.Arg("if"); (d.Name == "skip" || d.Name == "include") && a != nil && !a.Val.HasVar() {
 				out = append(out, d)
 			}
 		}
@@ -523,10 +535,13 @@ type injArgSite struct {
 func (c *injector) argSites(ok func(*model.ArgDef) bool, withDirective bool) []*injArgSite {
 	var out []*injArgSite
 	for _, f := range c.fields {
-		if f.fd == nil {
-			continue
+		if f.fd == nil || c.keys[f.x.Key()] > 1 {
+			continue // changing the arguments of one of several same-key fields would also make them conflict
 		}
 		for _, ad := range f.fd.Args {
+			if cur := argOf(f.x.Args, ad.Name); cur != nil && cur.Val.HasVar() {
+				continue // overwriting it could leave the variable unused
+			}
 			if ok(ad) {
 				out = append(out, &injArgSite{c: c, ad: ad, def: f.def, x: f.x})
 			}
@@ -551,6 +566,15 @@ func (c *injector) argSites(ok func(*model.ArgDef) bool, withDirective bool) []*
 		}
 	}
 	return out
+}
+
+func argOf(args []*model.Arg, name string) *model.Arg {
+	for _, a := range args {
+		if a.Name == name {
+			return a
+		}
+	}
+	return nil
 }
 
 func (c *injector) pickArgSite(label string, ok func(*model.ArgDef) bool, withDirective bool) *injArgSite {
@@ -746,7 +770,7 @@ func (c *injector) opFieldOnWrongType() ([]string, bool) {
 		return nil, false
 	}
 	k := cands[c.uni(len(cands), "cand")]
-	c.insert(k.set, c.minField(k.fd, ""))
+	c.insert(k.set, c.minField(k.fd, c.aliasIfTaken(k.fd.Name)))
 	return nil, true
 }
 
@@ -759,7 +783,7 @@ func (c *injector) opFieldOnUnion() ([]string, bool) {
 	for _, m := range c.s.Type(set.parent).Members {
 		if td := c.s.Type(m); td != nil && len(td.Fields) > 0 {
 			fd := td.Fields[c.uni(len(td.Fields), "memberField")]
-			c.insert(set, c.minField(fd, ""))
+			c.insert(set, c.minField(fd, c.aliasIfTaken(fd.Name)))
 			return nil, true
 		}
 	}
@@ -790,7 +814,8 @@ func (c *injector) opNoSelectionOnComposite() ([]string, bool) {
 	}
 	var cands []cand
 	for _, f := range c.fields {
-		if f.fd != nil && c.s.IsComposite(f.fd.Type.Name) {
+		// only sub-selections whose removal cannot orphan a fragment or a variable
+		if f.fd != nil && c.s.IsComposite(f.fd.Type.Name) && selfContained(f.x.Sel) {
 			cands = append(cands, cand{f: f})
 		}
 	}
@@ -809,7 +834,7 @@ func (c *injector) opNoSelectionOnComposite() ([]string, bool) {
 	}
 	k := cands[c.uni(len(cands), "cand")]
 	if k.f != nil {
-		k.f.x.Sel = nil // may also orphan fragments / variables used only below: extra violations
+		k.f.x.Sel = nil
 		return nil, true
 	}
 	x := c.minField(k.fd, c.fresh("zf"))
@@ -818,15 +843,45 @@ func (c *injector) opNoSelectionOnComposite() ([]string, bool) {
 	return nil, true
 }
 
+// selfContained: no fragment spread and no variable anywhere in the selections.
+func selfContained(sel []*model.Sel) bool {
+	for _, x := range sel {
+		if x.K == "spread" || !selfContained(x.Sel) {
+			return false
+		}
+		for _, a := range x.Args {
+			if a.Val.HasVar() {
+				return false
+			}
+		}
+		for _, d := range x.Dirs {
+			for _, a := range d.Args {
+				if a.Val.HasVar() {
+					return false
+				}
+			}
+		}
+	}
+	return true
+}
+
 // ---------------------------------------------------------------------------------------------
 // Arguments
 
+// knownFields lists the field selections with a known definition, those with a document-wide
+// unique response key when there are any (so that touching their arguments has no side effect).
 func (c *injector) knownFields() []*injField {
-	var out []*injField
+	var out, unique []*injField
 	for _, f := range c.fields {
 		if f.fd != nil {
 			out = append(out, f)
+			if c.keys[f.x.Key()] == 1 {
+				unique = append(unique, f)
+			}
 		}
+	}
+	if len(unique) > 0 {
+		return unique
 	}
 	return out
 }
